@@ -799,6 +799,26 @@ class C14(Property):
                    "vram_classes": [cls], "segments": [seg]}
             cases.append({"id": "kl%d" % i, "stream": "lattice:keep", "doc": doc, "opts": [],
                           "mode": "partial" if i % 2 else "normal", "version_comment": False})
+            if i % 7 == 0:
+                # the same tree in single_segment_mode (no class symbols are written there, the class's keep_sections still counts)
+                docs = copy.deepcopy(doc)
+                docs["settings"] = {"single_segment_mode": True}
+                cases.append({"id": "kls%d" % i, "stream": "lattice:keep", "doc": docs, "opts": [], "mode": "normal", "version_comment": False})
+        # three absent groups between the value and the file (the value travels down through every absent level)
+        for j, kv in enumerate([True, [".data"], [".text", ".bss"]]):
+            deep = {"path": "deep.o"}
+            for depth in range(4):
+                deep = {"kind": "group", "dir": "d%d" % depth, "files": [deep, {"path": "s%d.o" % depth}]}
+            for where in ("class", "segment", "group"):
+                seg = {"name": "ovl", "vram_class": "cls", "files": [deep if where != "group" else dict(deep, keep_sections=copy.deepcopy(kv))]}
+                cls = {"name": "cls", "fixed_vram": 0x80100000}
+                if where == "class":
+                    cls["keep_sections"] = copy.deepcopy(kv)
+                if where == "segment":
+                    seg["keep_sections"] = copy.deepcopy(kv)
+                for mode in ("normal", "partial"):
+                    doc = {"settings": {"partial_scripts_folder": "ps", "partial_build_segments_folder": "pb"}, "vram_classes": [cls], "segments": [copy.deepcopy(seg)]}
+                    cases.append({"id": "kdeep%d%s%s" % (j, where[0], mode[0]), "stream": "lattice:keep", "doc": doc, "opts": [], "mode": mode, "version_comment": False})
         return cases
 
 
@@ -1279,6 +1299,29 @@ class C15(Property):
             "process, once more in each of two fresh processes, and once with the distinct options supplied in another order; "
             "non-trivial when some section_order has two or more entries")
     quick_n = 500
+
+    def extra_cases(self, tier):
+        """lists that name something twice (a section, a file, a class member, a keep entry): whatever the implementation does
+        with the repetition, it does the same in every process"""
+        out = []
+        k = 0
+        for where in ("settings", "segment"):
+            for field, val in (("alloc_sections", [".text", ".rodata", ".data", ".rodata", ".sdata", ".text"]),
+                               ("noload_sections", [".bss", ".sbss", ".bss", "COMMON", ".sbss"]),
+                               ("sections_allowlist", [".mdebug", ".comment", ".mdebug", ".note", ".comment"]),
+                               ("sections_denylist", [".reginfo", ".got", ".reginfo", ".pdr", ".got"])):
+                if where == "segment" and field.startswith("sections_"):
+                    continue
+                for mode in ("normal", "partial"):
+                    st = {"partial_scripts_folder": "ps", "partial_build_segments_folder": "pb"} if mode == "partial" else {}
+                    seg = {"name": "boot", "fixed_vram": 0x80000400, "keep_sections": [".data", ".text", ".data"],
+                           "files": [{"path": "a.o"}, {"path": "b.o", "section_order": {".rodata": ".text", ".sdata": ".text", ".data": ".text"}}, {"path": "a.o"}]}
+                    (st if where == "settings" else seg)[field] = list(val)
+                    doc = {"settings": st, "segments": [seg, {"name": "main", "files": [{"path": "c.o"}]}]}
+                    out.append({"id": "repeat%d" % k, "seed": 80 + k, "stream": "valid", "opts": [["version", "us"], ["debug", "on"]], "mode": mode,
+                                "version_comment": False, "link": False, "doc": doc})
+                    k += 1
+        return out
 
     def profile(self, r):
         return Profile(p_section_order=0.6, p_subgroups=0.5, p_align=0.5, p_keep=0.4, p_custom_lists=0.4, p_missing_key=0.0,
